@@ -64,17 +64,25 @@ type caller struct {
 type queue struct {
 	mu      sync.Mutex
 	callers []*caller
+	// owner/key locate the queue in lock.queues so that the remove that empties it can drop it;
+	// dead (guarded by mu) tells a late enqueue that the queue is no longer in the map.
+	owner *lock
+	key   string
+	dead  bool
 }
 
-func newQueue() *queue {
-	return &queue{}
+func newQueue(owner *lock, key string) *queue {
+	return &queue{owner: owner, key: key}
 }
 
 // enqueue appends a new caller. If it lands at the head (queue was empty),
 // its ready channel is pre-closed so it can proceed immediately.
-func (q *queue) enqueue(c *caller) {
+func (q *queue) enqueue(c *caller) bool {
 	q.mu.Lock()
 	defer q.mu.Unlock()
+	if q.dead {
+		return false
+	}
 	wasEmpty := len(q.callers) == 0
 	q.callers = append(q.callers, c)
 	if wasEmpty {
@@ -83,6 +91,7 @@ func (q *queue) enqueue(c *caller) {
 	if verifhook.Enabled {
 		verifhook.Trace("lock.enq", "q", q, "id", c.id, "head", wasEmpty, "ids", verifQueueIDs(q))
 	}
+	return true
 }
 
 // remove deletes the caller with the given id from the queue. If the removed
@@ -91,6 +100,8 @@ func (q *queue) enqueue(c *caller) {
 func (q *queue) remove(id string) bool {
 	q.mu.Lock()
 	defer q.mu.Unlock()
+	// nobody holds or waits for this key any more: keep no per-key state (runs last, still under q.mu)
+	defer q.dropIfEmpty()
 	if verifhook.Enabled {
 		defer verifTraceRemove(q, id, verifQueueIDs(q))()
 	}
@@ -113,11 +124,20 @@ func (q *queue) remove(id string) bool {
 	return false
 }
 
+// dropIfEmpty removes an empty queue from the lock's map and marks it dead, so that a caller that fetched it
+// just before sees the flag in enqueue and takes the fresh queue. The caller holds q.mu.
+func (q *queue) dropIfEmpty() {
+	if len(q.callers) == 0 && !q.dead {
+		q.dead = true
+		q.owner.queues.CompareAndDelete(q.key, q)
+	}
+}
+
 func (l *lock) getQueue(key string) *queue {
 	if v, ok := l.queues.Load(key); ok {
 		return v.(*queue)
 	}
-	actual, _ := l.queues.LoadOrStore(key, newQueue())
+	actual, _ := l.queues.LoadOrStore(key, newQueue(l, key))
 	return actual.(*queue)
 }
 
@@ -131,7 +151,10 @@ func (l *lock) Lock(ctx context.Context, key string, ttl time.Duration) (lockID 
 	}
 
 	q := l.getQueue(key)
-	q.enqueue(c)
+	for !q.enqueue(c) {
+		// the queue was dropped between getQueue and enqueue: take the fresh one
+		q = l.getQueue(key)
+	}
 	verifhook.Yield("lock.enqueued", lockID)
 
 	// Wait until either we become the head of the queue (ready closed),
